@@ -355,6 +355,7 @@ def main():
             incomplete = True
 
     rc = 0
+    trouble = []      # things that make the run unusable as a verdict unless a confirmed violation exists anyway
     out_lines = []
     reported = 0
     known_hits = {}
@@ -363,7 +364,7 @@ def main():
     for c in crashes[:6]:
         if c['index'] is None or c['index'] < 0:
             log('worker died without naming a run: rc=%s\n%s' % (c['rc'], c['stderr'][-1500:]))
-            rc = max(rc, 2)
+            trouble.append('worker died without naming a run')
             continue
         plan = show_plan(c['flavour'], prop, seed, c['index'], tier == 'thorough')
         cls = 'hang' if c['rc'] == 78 else 'crash'
@@ -376,8 +377,8 @@ def main():
         if rrc in (77, 78) or rrc < 0 or rrc == 1:
             violations.append((c['flavour'], {'property': prop, 'class': cls, 'detail': detail, 'replay': path, 'plan': plan, 'pre_gated': True}))
         else:
-            log('crash at index %s did not reproduce on replay (rc=%s)' % (c['index'], rrc))
-            rc = max(rc, 2)
+            log('crash at index %s (%s flavour) did not reproduce on replay (rc=%s)' % (c['index'], c['flavour'], rrc))
+            trouble.append('unreproduced crash')
 
     if prop == 'C14' and 'move_only_compile_failure' in BUILD_NOTES:
         n = BUILD_NOTES['move_only_compile_failure']
@@ -400,7 +401,7 @@ def main():
             rrc, rout, rerr = replay(fl, v['replay'])
             if rrc != 1:
                 log('replay of %s did not reproduce (rc=%s)\n%s' % (v['replay'], rrc, rout[-800:]))
-                rc = max(rc, 2)
+                trouble.append('unreproduced violation')
                 continue
         kf = None
         for k in known:
@@ -422,10 +423,10 @@ def main():
             log('KNOWN-FINDING: property=%s %s (%d occurrences this run)' % (k['property'], k['what'], known_hits[k['id']]))
     if nondet:
         log('NON-DETERMINISTIC: %d violation(s) did not repeat in-process; first: %s' % (len(nondet), json.dumps(nondet[0])[:600]))
-        rc = max(rc, 2)
+        trouble.append('violation did not repeat in-process')
     if incomplete:
         log('a flavour produced no runs')
-        rc = max(rc, 2)
+        trouble.append('a flavour produced no runs')
     for l in out_lines:
         log(l)
 
@@ -446,6 +447,12 @@ def main():
             log('  class=valgrind_memcheck ' + vg['stderr_tail'][-400:].replace('\n', ' | '))
             reported += 1
             rc = max(rc, 1)
+
+    # verdict: a confirmed (gated, replayed) violation stands whatever else went wrong; otherwise trouble means exit 2
+    if trouble and rc == 0:
+        rc = 2
+    if trouble:
+        log('harness notes: ' + '; '.join(sorted(set(trouble))))
 
     wall = time.time() - t_start
     fault_fired = {k[len('fault_fired.'):]: v for k, v in counters.items() if k.startswith('fault_fired.')}
